@@ -429,7 +429,7 @@ func raceReproduces(rp *Replay) (bool, *Violation) {
 		return false, nil
 	}
 	ri := fromRaceReplay(rp)
-	for attempt := 0; attempt < 3; attempt++ {
+	for attempt := 0; attempt < 4; attempt++ {
 		ro, reports, fatal := runRaceNode(ri, 20*time.Minute)
 		if raceMatches(rp.Expected, reports, ro, fatal) {
 			return true, rp.Expected
@@ -443,26 +443,29 @@ func raceReproduces(rp *Replay) (bool, *Violation) {
 // the remaining set) while the same report reproduces.
 func (c *checker) makeRaceReplay(fv *foundViolation) string {
 	rf := fv.race
-	sets := rf.sets
+	full := rf.sets
 	rounds := rf.rounds * 2
 	test := func(s [][]raceReq) bool {
 		c.minimiseRuns++
 		ok, _ := raceReproduces(toRaceReplay(s, rounds, &fv.v))
 		return ok
 	}
-	if !test(sets) {
+	if !test(full) {
 		infra("race report %s did not reproduce with the same request sets (logged; no verdict): %s", fv.v.Key, clip(fv.v.Detail, 400))
 	}
+	// a reduction is only accepted when it reproduces twice in a row (the interleaving is not ours)
+	twice := func(s [][]raceReq) bool { return test(s) && test(s) }
+	sets := full
 	budget := 24
 	for len(sets) > 1 && budget > 0 {
 		half := len(sets) / 2
-		budget--
-		if test(sets[:half]) {
+		budget -= 2
+		if twice(sets[:half]) {
 			sets = sets[:half]
 			continue
 		}
-		budget--
-		if test(sets[half:]) {
+		budget -= 2
+		if twice(sets[half:]) {
 			sets = sets[half:]
 			continue
 		}
@@ -471,11 +474,14 @@ func (c *checker) makeRaceReplay(fv *foundViolation) string {
 	if len(sets) == 1 {
 		for i := len(sets[0]) - 1; i >= 0 && len(sets[0]) > 2 && budget > 0; i-- {
 			cand := append(append([]raceReq{}, sets[0][:i]...), sets[0][i+1:]...)
-			budget--
-			if test([][]raceReq{cand}) {
+			budget -= 2
+			if twice([][]raceReq{cand}) {
 				sets = [][]raceReq{cand}
 			}
 		}
+	}
+	if !test(sets) && !test(sets) {
+		sets = full // the reduced form is not reliable enough: keep what was observed
 	}
 	rp := toRaceReplay(sets, rounds, &fv.v)
 	return c.writeReplay(rp, fv)
